@@ -205,11 +205,17 @@ type yieldingBuf struct {
 	y *yielder
 }
 
-func (b yieldingBuf) Write(p []byte) (int, error)       { b.y.yield(siteBufW); return b.Writer.Write(p) }
-func (b yieldingBuf) WriteString(p string) (int, error) { b.y.yield(siteBufW); return b.Writer.WriteString(p) }
-func (b yieldingBuf) WriteByte(c byte) error            { b.y.yield(siteBufW); return b.Writer.WriteByte(c) }
-func (b yieldingBuf) WriteRune(r rune) (int, error)     { b.y.yield(siteBufW); return b.Writer.WriteRune(r) }
-func (b yieldingBuf) Flush() error                      { b.y.yield(siteBufW); return b.Writer.Flush() }
+func (b yieldingBuf) Write(p []byte) (int, error) { b.y.yield(siteBufW); return b.Writer.Write(p) }
+func (b yieldingBuf) WriteString(p string) (int, error) {
+	b.y.yield(siteBufW)
+	return b.Writer.WriteString(p)
+}
+func (b yieldingBuf) WriteByte(c byte) error { b.y.yield(siteBufW); return b.Writer.WriteByte(c) }
+func (b yieldingBuf) WriteRune(r rune) (int, error) {
+	b.y.yield(siteBufW)
+	return b.Writer.WriteRune(r)
+}
+func (b yieldingBuf) Flush() error { b.y.yield(siteBufW); return b.Writer.Flush() }
 
 // mkStack returns the io.Writer to hand to goldmark for the named stack.
 func mkStack(name string, s *Sink, y *yielder) io.Writer {
